@@ -37,6 +37,135 @@ pub proof fn lemma_has_after_remove(o: Seq<u16>, idx: int, k: u16)
 '''
 
 
+MERGE_SPEC = r'''verus! {
+// rule X1 model: slice::Iter::<u16>::next as a cursor
+#[verifier::external_body]
+fn verif_next_u16<'a>(v: &'a Vec<u16>, pos: &mut usize) -> (r: Option<&'a u16>)
+    requires *old(pos) <= v@.len(),
+    ensures (*old(pos) as int) < v@.len() ==> r.is_some() && *r.unwrap() == v@[*old(pos) as int] && *final(pos) == *old(pos) + 1,
+            (*old(pos) as int) >= v@.len() ==> r.is_none() && *final(pos) == *old(pos),
+{ unimplemented!() }
+pub proof fn lemma_sorted_ge_index(s: Seq<u16>, i: int)
+    requires forall |x: int, y: int| 0 <= x < y < s.len() ==> s[x] < s[y], 0 <= i < s.len(),
+    ensures s[i] as int >= i,
+    decreases i,
+{ if i > 0 { lemma_sorted_ge_index(s, i - 1); assert(s[i - 1] < s[i]); } }
+pub proof fn lemma_sorted_len(s: Seq<u16>)
+    requires forall |x: int, y: int| 0 <= x < y < s.len() ==> s[x] < s[y],
+    ensures s.len() <= 65536,
+{ if s.len() > 0 { lemma_sorted_ge_index(s, s.len() as int - 1); } }
+pub proof fn lemma_prefix_has(s: Seq<u16>, n: int, k: u16)
+    requires 0 <= n < s.len(),
+    ensures s.subrange(0, n + 1).contains(k) == (s.subrange(0, n).contains(k) || k == s[n]),
+{
+    let p0 = s.subrange(0, n); let p1 = s.subrange(0, n + 1);
+    if p0.contains(k) { let q = choose |q: int| 0 <= q < p0.len() && p0[q] == k; assert(p1[q] == k); }
+    if k == s[n] { assert(p1[n] == k); }
+    if p1.contains(k) { let q = choose |q: int| 0 <= q < p1.len() && p1[q] == k; if q < n { assert(p0[q] == k); } }
+}
+pub proof fn lemma_below_not_in_prefix(s: Seq<u16>, n: int, v: u16)
+    requires 0 <= n <= s.len(), forall |x: int| 0 <= x < n ==> #[trigger] s[x] < v,
+    ensures !s.subrange(0, n).contains(v),
+{
+    let p0 = s.subrange(0, n);
+    if p0.contains(v) { let q = choose |q: int| 0 <= q < p0.len() && p0[q] == v; assert(s[q] < v); }
+}
+pub proof fn lemma_push_has_u16(r0: Seq<u16>, x: u16, k: u16)
+    ensures r0.push(x).contains(k) == (r0.contains(k) || k == x),
+{
+    let r1 = r0.push(x);
+    if r0.contains(k) { let q = choose |q: int| 0 <= q < r0.len() && r0[q] == k; assert(r1[q] == k); }
+    if k == x { assert(r1[r0.len() as int] == k); }
+    if r1.contains(k) { let q = choose |q: int| 0 <= q < r1.len() && r1[q] == k; if q < r0.len() { assert(r0[q] == k); } }
+}
+pub proof fn lemma_all_below_not_has(r0: Seq<u16>, v: u16)
+    requires forall |x: int| 0 <= x < r0.len() ==> #[trigger] r0[x] < v,
+    ensures !r0.contains(v),
+{
+    if r0.contains(v) { let q = choose |q: int| 0 <= q < r0.len() && r0[q] == v; assert(r0[q] < v); }
+}
+// v sits strictly between the consumed part and the head of a sorted sequence: it is not in it at all
+pub proof fn lemma_gap_not_in(s: Seq<u16>, n: int, v: u16)
+    requires 0 <= n <= s.len(), forall |x: int, y: int| 0 <= x < y < s.len() ==> s[x] < s[y],
+             forall |x: int| 0 <= x < n ==> #[trigger] s[x] < v, n < s.len() ==> v < s[n],
+    ensures !s.contains(v),
+{
+    if s.contains(v) { let q = choose |q: int| 0 <= q < s.len() && s[q] == v; if q < n { assert(s[q] < v); } else if q > n { assert(s[n] < s[q]); } }
+}
+} // verus!
+'''
+
+MERGE_STEP = r'''proof {
+    let a = old(self).elements@; let b = other.elements@;
+    ia = if self_next.is_some() { self_iter as int - 1 } else { self_iter as int };
+    jb = if other_next.is_some() { other_iter as int - 1 } else { other_iter as int };
+    if ia == ia0 + 1 && jb == jb0 {
+        // a[ia0] was pushed (it is below b's head, or b is exhausted)
+        let v = a[ia0];
+        assert(result@ == r0.push(v));
+        lemma_below_not_in_prefix(b, jb0, v);
+        assert forall |k: u16| result@.contains(k) == (a.subrange(0, ia).contains(k) != b.subrange(0, jb).contains(k)) by { lemma_push_has_u16(r0, v, k); lemma_prefix_has(a, ia0, k); lemma_all_below_not_has(r0, v); }
+        assert forall |x: int, y: int| 0 <= x < y < result@.len() implies result@[x] < result@[y] by { if y == r0.len() { assert(r0[x] < v); } }
+        assert forall |x: int| 0 <= x < result@.len() && ia < a.len() implies #[trigger] result@[x] < a[ia] by { assert(a[ia0] < a[ia]); if x < r0.len() { assert(r0[x] < a[ia0]); } }
+        assert forall |x: int| 0 <= x < ia && jb < b.len() implies #[trigger] a[x] < b[jb] by { }
+        assert forall |y: int| 0 <= y < jb && ia < a.len() implies #[trigger] b[y] < a[ia] by { assert(a[ia0] < a[ia]); assert(b[y] < a[ia0]); }
+    } else if ia == ia0 + 1 && jb == jb0 + 1 {
+        // equal heads cancel
+        let v = a[ia0];
+        assert(result@ == r0 && b[jb0] == v);
+        lemma_all_below_not_has(r0, v);
+        assert forall |k: u16| result@.contains(k) == (a.subrange(0, ia).contains(k) != b.subrange(0, jb).contains(k)) by { lemma_prefix_has(a, ia0, k); lemma_prefix_has(b, jb0, k); }
+        assert forall |x: int| 0 <= x < result@.len() && ia < a.len() implies #[trigger] result@[x] < a[ia] by { assert(a[ia0] < a[ia]); assert(r0[x] < a[ia0]); }
+        assert forall |x: int| 0 <= x < result@.len() && jb < b.len() implies #[trigger] result@[x] < b[jb] by { assert(b[jb0] < b[jb]); assert(r0[x] < b[jb0]); }
+        assert forall |x: int| 0 <= x < ia && jb < b.len() implies #[trigger] a[x] < b[jb] by { assert(b[jb0] < b[jb]); if x < ia0 { assert(a[x] < b[jb0]); } }
+        assert forall |y: int| 0 <= y < jb && ia < a.len() implies #[trigger] b[y] < a[ia] by { assert(a[ia0] < a[ia]); if y < jb0 { assert(b[y] < a[ia0]); } }
+        assert(a.contains(b[jb0])) by { assert(a[ia0] == b[jb0]); }
+        assert((exists |y: int| 0 <= y < jb && !a.contains(#[trigger] b[y])) == (exists |y: int| 0 <= y < jb0 && !a.contains(#[trigger] b[y])));
+    } else {
+        // b[jb0] was pushed (it is below a's head, or a is exhausted): a key new to self
+        assert(ia == ia0 && jb == jb0 + 1);
+        let v = b[jb0];
+        assert(result@ == r0.push(v));
+        lemma_below_not_in_prefix(a, ia0, v);
+        lemma_gap_not_in(a, ia0, v);
+        assert forall |k: u16| result@.contains(k) == (a.subrange(0, ia).contains(k) != b.subrange(0, jb).contains(k)) by { lemma_push_has_u16(r0, v, k); lemma_prefix_has(b, jb0, k); lemma_all_below_not_has(r0, v); }
+        assert forall |x: int, y: int| 0 <= x < y < result@.len() implies result@[x] < result@[y] by { if y == r0.len() { assert(r0[x] < v); } }
+        assert forall |x: int| 0 <= x < result@.len() && jb < b.len() implies #[trigger] result@[x] < b[jb] by { assert(b[jb0] < b[jb]); if x < r0.len() { assert(r0[x] < b[jb0]); } }
+        assert forall |x: int| 0 <= x < ia && jb < b.len() implies #[trigger] a[x] < b[jb] by { assert(b[jb0] < b[jb]); assert(a[x] < b[jb0]); }
+        assert(!a.contains(b[jb0]));
+    }
+}
+'''
+
+FAST_REMOVE = r'''proof { let a = self.elements@; let b = other.elements@; let v = b[0];
+    assert forall |k: u16| b.contains(k) == (k == v) by { if b.contains(k) { let q = choose |q: int| 0 <= q < b.len() && b[q] == k; } if k == v { assert(b[0] == k); } }
+    assert(a.contains(v)) by { assert(a[index as int] == v); }
+    assert forall |k: u16| a.remove(index as int).contains(k) == (k != v && a.contains(k)) by { lemma_has_after_remove(a, index as int, k); } }'''
+
+FAST_INSERT = r'''proof { let a = self.elements@; let b = other.elements@; let v = b[0];
+    assert forall |k: u16| b.contains(k) == (k == v) by { if b.contains(k) { let q = choose |q: int| 0 <= q < b.len() && b[q] == k; } if k == v { assert(b[0] == k); } }
+    assert(!a.contains(v)) by { if a.contains(v) { let q = choose |q: int| 0 <= q < a.len() && a[q] == v; } }
+    assert forall |k: u16| a.insert(index as int, v).contains(k) == (k == v || a.contains(k)) by { lemma_has_after_insert(a, index as int, v, k); }
+    assert(sv_has(*other, v) && !sv_has(*old(self), v)); }'''
+
+MERGE_END = r'''proof {
+    let a = old(self).elements@; let b = other.elements@;
+    assert(self_next.is_none() && other_next.is_none()); assert(ia == a.len() && jb == b.len());
+    assert(column_added == (exists |y: int| 0 <= y < b.len() && !a.contains(#[trigger] b[y])));
+    assert(a.subrange(0, a.len() as int) =~= a && b.subrange(0, b.len() as int) =~= b);
+    assert((exists |k: u16| b.contains(k) && !a.contains(k)) == (exists |y: int| 0 <= y < b.len() && !a.contains(#[trigger] b[y]))) by {
+        if exists |k: u16| b.contains(k) && !a.contains(k) { let k = choose |k: u16| b.contains(k) && !a.contains(k); let y = choose |y: int| 0 <= y < b.len() && b[y] == k; assert(!a.contains(b[y])); }
+        if exists |y: int| 0 <= y < b.len() && !a.contains(#[trigger] b[y]) { let y = choose |y: int| 0 <= y < b.len() && !a.contains(#[trigger] b[y]); assert(b.contains(b[y])); }
+    }
+    assert((exists |k: u16| sv_has(*other, k) && !sv_has(*old(self), k)) == (exists |k: u16| b.contains(k) && !a.contains(k))) by {
+        if exists |k: u16| sv_has(*other, k) && !sv_has(*old(self), k) { let k = choose |k: u16| sv_has(*other, k) && !sv_has(*old(self), k); assert(b.contains(k) && !a.contains(k)); }
+        if exists |k: u16| b.contains(k) && !a.contains(k) { let k = choose |k: u16| b.contains(k) && !a.contains(k); assert(sv_has(*other, k) && !sv_has(*old(self), k)); }
+    }
+    assert(column_added == (exists |k: u16| sv_has(*other, k) && !sv_has(*old(self), k)));
+}
+'''
+
+
 def spvec(u):
     """SparseBinaryVec under contract (also used by V-SPMAT)"""
     IMPL = 'impl SparseBinaryVec'
@@ -67,6 +196,33 @@ def spvec(u):
                         'Err(index) => { proof { assert forall |k: u16| self.elements@.insert(index as int, i as u16).contains(k) == (k == i as u16 || self.elements@.contains(k)) by { lemma_has_after_insert(self.elements@, index as int, i as u16, k); }'
                         ' assert(!self.elements@.contains(i as u16)) by { if self.elements@.contains(i as u16) { let q = choose |q: int| 0 <= q < self.elements@.len() && self.elements@[q] == i as u16; } } }'
                         ' self.elements.insert(index, i as u16) },')])
+    # ---- GF(2) sum of two sparse rows (the two-iterator merge): symmetric difference of the key sets
+    A, B = 'old(self).elements@', 'other.elements@'
+    INV = ('invariant sv_wf(*old(self)), sv_wf(*other), self.elements@ == @A@, self_iter <= @A@.len(), other_iter <= @B@.len(),'
+           ' (self_next.is_some() ==> self_iter >= 1 && *self_next.unwrap() == @A@[self_iter as int - 1]), (self_next.is_none() ==> self_iter as int == @A@.len()),'
+           ' (other_next.is_some() ==> other_iter >= 1 && *other_next.unwrap() == @B@[other_iter as int - 1]), (other_next.is_none() ==> other_iter as int == @B@.len()),'
+           ' ia == (if self_next.is_some() { self_iter as int - 1 } else { self_iter as int }), jb == (if other_next.is_some() { other_iter as int - 1 } else { other_iter as int }),'
+           # cross order: everything consumed from one side is below the other side's head
+           ' forall |x: int| 0 <= x < ia && jb < @B@.len() ==> #[trigger] @A@[x] < @B@[jb], forall |y: int| 0 <= y < jb && ia < @A@.len() ==> #[trigger] @B@[y] < @A@[ia],'
+           ' forall |x: int, y: int| 0 <= x < y < result@.len() ==> result@[x] < result@[y],'
+           ' forall |x: int| 0 <= x < result@.len() && ia < @A@.len() ==> #[trigger] result@[x] < @A@[ia], forall |x: int| 0 <= x < result@.len() && jb < @B@.len() ==> #[trigger] result@[x] < @B@[jb],'
+           ' forall |k: u16| result@.contains(k) == (@A@.subrange(0, ia).contains(k) != @B@.subrange(0, jb).contains(k)),'
+           ' column_added == (exists |y: int| 0 <= y < jb && !@A@.contains(#[trigger] @B@[y])),'
+           ' ensures self_next.is_none() && other_next.is_none(),').replace('@A@', A).replace('@B@', B)
+    u.fn('src/sparse_vec.rs', 'add_assign', impl=IMPL, ret='r', rules=['X1', 'X2'],
+         attrs='#[verifier::exec_allows_no_decreases_clause]\n#[verifier::rlimit(60)]', isolate_loops=True,
+         requires=['sv_wf(*old(self))', 'sv_wf(*other)'],
+         ensures=['sv_wf(*final(self))', 'forall |k: u16| sv_has(*final(self), k) == (sv_has(*old(self), k) != sv_has(*other, k))',
+                  'r == (exists |k: u16| sv_has(*other, k) && !sv_has(*old(self), k))'],
+         resubst=[(r'let mut result = Vec::with_capacity\(', 'let mut result: Vec<u16> = Vec::with_capacity(', 'type-annotation')],
+         prepend='proof { lemma_sorted_len(self.elements@); lemma_sorted_len(other.elements@); }',
+         inserts=[('let mut column_added = false;', 'after', 'let ghost mut ia: int = 0; let ghost mut jb: int = 0;\nproof { ia = if self_next.is_some() { 0 } else { 0 }; }')],
+         loops={0: {'spec': INV,
+                    'body_top': 'let ghost r0 = result@; let ghost ia0 = ia; let ghost jb0 = jb;',
+                    'body_bottom': MERGE_STEP}},
+         hint_inserts=[('self.elements = result;', 'before', MERGE_END),
+                       ('self.elements.remove(index);', 'before', FAST_REMOVE),
+                       ('self.elements.insert(index, *other_index);', 'before', FAST_INSERT)])
     u.raw('}')
 
 
@@ -83,6 +239,8 @@ def build():
     u.struct('src/sparse_vec.rs', 'SparseBinaryVec')
     u.raw('} // verus!')
     u.raw(SPEC)
+    u.raw(MERGE_SPEC, label='merge lemmas + cursor model (rule X1)')
+    u.trust('rule X1: slice::Iter::next modelled as a cursor over the vector; rule X2: match on Ord::cmp rewritten to an if-chain')
     u.trust('rule S5: <[u16]>::binary_search on a strictly increasing slice returns Ok(position) or Err(insertion point) (std documented behaviour)')
     u.raw('verus! {')
     spvec(u)
